@@ -3808,7 +3808,7 @@ static int bufr_load_datasubsets( FILE *fp, BUFR_Dataset *dts, int lineno, BUFR_
             sscanf( tok, "%llx", &afbits );
          if (debug)
             {
-            sprintf( errmsg, _("   *** has AF: %s -> %llx\n"), tok ? tok : "", afbits );
+            snprintf( errmsg, arr_count(dstrptr), _("   *** has AF: %s -> %llx\n"), tok ? tok : "", afbits );
             bufr_print_debug( errmsg );
             }
 
@@ -3956,7 +3956,7 @@ static int bufr_load_datasubsets( FILE *fp, BUFR_Dataset *dts, int lineno, BUFR_
 
                if (debug)
                   {
-                  sprintf( errmsg, _("   *** has value: %s -> %lld\n"),
+                  snprintf( errmsg, arr_count(dstrptr), _("   *** has value: %s -> %lld\n"),
 							tok, (long long)ival64 );
                   bufr_print_debug( errmsg );
                   }
@@ -3969,7 +3969,7 @@ static int bufr_load_datasubsets( FILE *fp, BUFR_Dataset *dts, int lineno, BUFR_
                      bufr_descriptor_set_dvalue( cb, dval );
                   if (debug)
                      {
-                     sprintf( errmsg, _("   *** has value: %s -> %f\n"), tok, dval );
+                     snprintf( errmsg, arr_count(dstrptr), _("   *** has value: %s -> %f\n"), tok, dval );
                      bufr_print_debug( errmsg );
                      }
                   }
@@ -3982,7 +3982,7 @@ static int bufr_load_datasubsets( FILE *fp, BUFR_Dataset *dts, int lineno, BUFR_
                      bufr_descriptor_set_fvalue( cb, fval );
                   if (debug)
                      {
-                     sprintf( errmsg, _("   *** has value: %s -> %f\n"), tok, fval );
+                     snprintf( errmsg, arr_count(dstrptr), _("   *** has value: %s -> %f\n"), tok, fval );
                      bufr_print_debug( errmsg );
                      }
                   }
